@@ -159,6 +159,8 @@ impl<'g, K, V> Iterator for NodeIter<'g, K, V> {
                 let bin = unsafe { bin.deref() };
                 match **bin {
                     BinEntry::Moved => {
+                        #[cfg(feature = "verif")]
+                        crate::verif::hit(crate::verif::EV_ITER_FORWARDED, crate::verif::addr(t), i);
                         // recurse down into the target table
                         // safety: same argument as for following Moved in Table::find
                         self.table = Some(unsafe { t.next_table(self.guard).deref() });
